@@ -129,7 +129,7 @@ pub fn run(ctx: &Ctx) -> i32 {
         "unjudged (documentation silent): unbalanced quotes, three or more consecutive apostrophes, NUL, symbols of another type (H in Date::format), yy for negative years, noon/midnight within the first second when the sub-second part is non-zero".into(),
         "over-long runs fall back to the width marked * in the table; y has unlimited width".into(),
     ];
-    rep.require(&["rendered", "unjudged-by-documentation"]);
+    rep.require(&["rendered", "unjudged-by-documentation", "display"]);
     let checked = PROFILE == "checked";
     // (a) single tokens, widths 1..=10
     let mut days = ab::window_days();
@@ -196,6 +196,31 @@ pub fn run(ctx: &Ctx) -> i32 {
             }
         });
     }
+    // (d) Display impls: the documented default patterns, on the value set (with offsets)
+    rep.sweep("Display: Date / Time / DateTime to_string() on the value set", vals.len() as u64 * 3, "yyyy/MM/dd, HH:mm:ss, yyyy/MM/dd HH:mm:ss in the value's offset", |i, acc| {
+        let kind = (i % 3) as u8;
+        let (d, n, o) = vals[(i / 3) as usize];
+        let (n, o) = if kind == 0 { (0, 0) } else { (n, o) };
+        let pat = ["yyyy/MM/dd", "HH:mm:ss", "yyyy/MM/dd HH:mm:ss"][kind as usize];
+        let want = render(kind_of(kind), pat, local_of(kind, d, n, o), o).unwrap();
+        let got = match kind {
+            0 => call(|| Date::from_timestamp((d - cal::DAYS_TO_1970) * 86_400).to_string()),
+            1 => match time_from(n, o) {
+                Some(t) => call(|| t.to_string()),
+                None => return,
+            },
+            _ => match dt_from_off(d, n, o) {
+                Some(x) => call(|| x.to_string()),
+                None => return,
+            },
+        };
+        acc.transitions += 1;
+        acc.states += 1;
+        if got != Out::Val(want.clone()) {
+            acc.violation(&format!("{}::to_string", ["Date", "Time", "DateTime"][kind as usize]), if o == 0 { "display-utc" } else { "display-with-offset" }, json!({"kind": kind, "day": d, "nod": n.to_string(), "off": o, "pattern": format!("<Display> {}", pat)}), want, got.show());
+        }
+        acc.branch("display");
+    });
     // (c) every pattern string of length <= 6 over a small alphabet rich in quotes: tokenizer / quoting depth
     let sigma = ["y", "M", "H", "'", "-", "é", "d"];
     let npat = crate::props::c14::count_strings(7, 6);
@@ -209,6 +234,9 @@ pub fn run(ctx: &Ctx) -> i32 {
 }
 
 pub fn replay(_op: &str, case: &Value, acc: &mut Acc) -> bool {
+    if case["pattern"].as_str().map_or(false, |p| p.starts_with("<Display>")) {
+        return false;
+    }
     case_format(case["kind"].as_u64().unwrap() as u8, case["day"].as_i64().unwrap(), case["nod"].as_str().unwrap().parse().unwrap(), case["off"].as_i64().unwrap() as i32, case["pattern"].as_str().unwrap(), acc);
     true
 }
